@@ -78,6 +78,7 @@ def run(ctx, replay=None):
         by_code.setdefault(code, []).append(cid)
     corr_codes, mon_codes = ROLE[pid]
     outside = by_code.pop(90, [])
+    outside_other = by_code.pop(92, [])
 
     def rep(cid, code):
         e = index.get(cid, {})
@@ -134,7 +135,8 @@ def run(ctx, replay=None):
         "samples": [v["input"] for k, v in sorted(index.items())[:4]],
         "input_distribution": {"value_classes": classes, "case_kinds": kinds, "schema_types_exercised": schema_hit},
         "mismatches": {str(k): len(v) for k, v in by_code.items()},
-        "marshalled_values_outside_C05_hypotheses": {"count": len(outside), "examples": [index.get(c, {}).get("input", "")[:200] for c in sorted(outside)[:5]]} if mode == "rt" else None,
+        "marshalled_values_outside_C05_hypotheses": {"explicit_tagging": len(outside), "other": len(outside_other),
+                                                     "examples_other": [index.get(c, {}).get("input", "")[:400] for c in sorted(outside_other)[:5]]} if mode == "rt" else None,
     })
     if sweep:
         cov["exhaustive_sweep"] = sweep
